@@ -339,3 +339,5 @@ def _concrete_validation(env, cfg):
 
 
 META['explanation'] += ' The abstract metric may also reject a pair (update raises, state unchanged): the error propagates and later calls are unaffected; one prediction dict mutated in place between calls.'
+
+META['explanation'] += ' The validator is exercised through the public package-level entry point and the module-level one; two metric objects of one class get separate losses.'
